@@ -298,6 +298,30 @@ func unitC16(e common.Env, p *common.Part) {
 		h.Signature = h.Signature[:len(h.Signature)-2]
 	})
 	sigCase("last byte changed", func(h *comm.Handshake, b []byte) { signWith(n2.ident, h); h.Signature[len(h.Signature)-1] ^= 1 })
+	// a signature the service has ACCEPTED before (node 2's recorded handshake above) is not a credential: presented over this
+	// connection's own, fresh binding it proves nothing - neither for node 2 again nor for any other registered identity
+	reuse := func(name string, ident []byte) {
+		add(c16case{Field: "signature", Mutation: name, Domain: "dom", Auth: func(b []byte) comm.Handshake {
+			recMu.Lock()
+			defer recMu.Unlock()
+			if recorded == nil {
+				return comm.Handshake{Domain: "dom"}
+			}
+			return comm.Handshake{Domain: "dom", TLSBinding: b, Identity: ident, Timestamp: time.Now().Unix(), Signature: append([]byte{}, recorded.Signature...)}
+		}, Entitled: none})
+	}
+	reuse("signature bytes of an earlier, accepted handshake of node 2 over this connection's fresh binding", n2.ident.Cert)
+	reuse("signature bytes of an earlier, accepted handshake of node 2 presented with node 5's identity", n5.ident.Cert)
+	add(c16case{Field: "binding", Mutation: "handshake recorded on another connection (accepted there) with only the binding replaced by this connection's", Domain: "dom", Auth: func(b []byte) comm.Handshake {
+		recMu.Lock()
+		defer recMu.Unlock()
+		if recorded == nil {
+			return comm.Handshake{Domain: "dom"}
+		}
+		h := *recorded
+		h.TLSBinding = b
+		return h
+	}, Entitled: none})
 	// --- encoding level (raw client). valid = the encoded valid handshake for that very connection.
 	add(c16case{Field: "none", Mutation: "raw client, unmodified handshake (format self-check)", Raw: func(v []byte) []byte { return v }, Entitled: 2, EntDom: "dom"})
 	sample := encodeHandshake(honestAuth(n2.ident, "dom")(make([]byte, 32)))
